@@ -148,7 +148,7 @@ ReproOmits == {<<117, 115, 101, 114, 45, 97, 103, 101, 110, 116>>, <<97, 99, 99,
 MustCarryBy(route, sink, omitted) ==
     IF route \in {"resp-set-cookie", "resp-header"} THEN sink \in {"vcr", "har"}
     ELSE IF route = "url-userinfo" THEN TRUE
-    ELSE IF route = "requests-auth" THEN sink = "curl"          \* Python API: Case.as_curl_command / the failure report's curl sample
+    ELSE IF route = "requests-auth" THEN sink = "curl" /\ ~omitted   \* Python API: Case.as_curl_command / the failure report's curl sample
     ELSE IF route \in {"user-header", "gen-header"} /\ omitted THEN sink \in {"vcr", "har"}
     ELSE sink \in {"curl", "junit", "vcr", "har"}
 ExpectedBy(route, sink, sanitize, sens, omitted) ==
